@@ -717,12 +717,13 @@ func dirState(dir string, cfg Config) string {
 }
 
 // Harness_C09_stale: a write through a stale handle never commits, leaves the directory unchanged, refreshes the handle; the retry succeeds with a fresh update index.
-// bounds: sequential histories: handle H1 opens on a stack of 3 tables; another handle performs 1..2 operations from {Add, CompactAll, CompactAll with expiry, compaction of the two oldest tables (the top table keeps its name)}; then H1 attempts Add, NewAddition, CompactAll, Add with auto-compaction, or Clean; then H1 retries Add
+// bounds: sequential histories: handle H1 opens on a stack of 3 tables or on the still empty directory; another handle performs 1..2 operations from {Add, CompactAll, CompactAll with expiry, compaction of the two oldest tables (the top table keeps its name)}; then H1 attempts Add, NewAddition, CompactAll, Add with auto-compaction, or Clean; then H1 retries Add
 // covers: done
 func Harness_C09_stale() {
 	cfg := stackCfg(0)
 	dir := VerifTempDir()
-	seedStack(dir, cfg, 3)
+	n0 := []int{3, 0}[VerifChoose(2)] // H1 may also have been opened before the very first commit
+	seedStack(dir, cfg, n0)
 	VerifAs(1)
 	h1 := mustOpen(dir, cfg, "open-h1")
 	VerifAs(2)
@@ -731,9 +732,13 @@ func Harness_C09_stale() {
 		return
 	}
 	k := VerifIntRange(1, 2)
-	maxCommitted := uint64(3)
+	maxCommitted := uint64(n0)
 	for i := 0; i < k; i++ {
-		switch VerifChoose(4) {
+		c := VerifChoose(4)
+		if n0 == 0 && i == 0 {
+			c = 0 // nothing to compact yet
+		}
+		switch c {
 		case 3:
 			// a compaction below the top table: the newest table keeps its name
 			if len(h2.stack) >= 3 {
@@ -836,12 +841,14 @@ func consistentSnapshot(s stackSnapshot, nInit int, writerID byte) bool {
 }
 
 // Harness_C10_reader: a handle that reloads (or fails to) while others add and compact keeps reading one committed snapshot.
-// bounds: reader handle R runs reload then a full scan; concurrently one writer handle runs Add, CompactAll, compactRange(0,1), Add followed by a compaction of the top two tables, compaction of the bottom two tables + Add + compaction of the top two, or compaction of tables 1..2 followed by two Adds (thorough: two writers, Add and CompactAll); stack of 3 tables; every schedule with <= 3 preemptions (thorough: <= 2 with three processes)
+// bounds: reader handle R runs reload then a full scan; concurrently one writer handle runs Add, CompactAll, compactRange(0,1), Add followed by a compaction of the top two tables, compaction of the bottom two tables + Add + compaction of the top two, or compaction of tables 1..2 followed by two Adds (thorough: two writers, Add and CompactAll); stack of 3 tables; every schedule with <= 3 preemptions (thorough: <= 2 with three processes); list-integrity monitor after every filesystem step and a fresh open at the end
 // covers: done
 func Harness_C10_reader() {
 	cfg := stackCfg(0)
 	dir := VerifTempDir()
 	const nInit = 3
+	// a reload's garbage collection must never remove a table the list names
+	VerifMonitor("list")
 	seedStack(dir, cfg, nInit)
 	VerifAs(1)
 	r := mustOpen(dir, cfg, "open-reader")
@@ -902,6 +909,50 @@ func Harness_C10_reader() {
 	} else {
 		VerifRun(3)
 	}
+	// whatever the reader's reload did on the way, the directory is still a stack
+	VerifAs(0)
+	fin := mustOpen(dir, cfg, "open-after-reader-and-writer")
+	if fin != nil {
+		VerifAssert(snapshot(fin, "final").ok, "listed-table-unreadable")
+	}
+	VerifCover("done")
+}
+
+// Harness_C10_open_races: a process that opens the directory while another one compacts again and again loses the race between reading the list and opening the tables several times in a row; whenever the open succeeds it still shows a committed snapshot.
+// bounds: stack of 4 tables; process 1 runs compactRange(0,1) three times; process 2 opens the directory (NewStack) and scans; deep but narrow schedules: <= 6 preemptions, offered only where a process is about to open a table file (between reading the list and opening what it names: each of the opener's attempts can be overtaken by one compaction)
+// covers: done, lost-a-race
+func Harness_C10_open_races() {
+	cfg := stackCfg(0)
+	dir := VerifTempDir()
+	const nInit = 4
+	seedStack(dir, cfg, nInit)
+	VerifAs(1)
+	w := mustOpen(dir, cfg, "open-writer")
+	VerifAs(0)
+	if w == nil {
+		return
+	}
+	VerifSpawn(func() {
+		for i := 0; i < 3; i++ {
+			if len(w.stack) >= 2 {
+				w.compactRange(0, 1, nil)
+			}
+		}
+	})
+	VerifSpawn(func() {
+		st, err := NewStack(dir, cfg)
+		if err != nil {
+			// giving up is allowed; claiming success with something that was never committed is not
+			VerifCover("lost-a-race")
+			return
+		}
+		if len(st.stack) < nInit {
+			VerifCover("lost-a-race")
+		}
+		s := snapshot(st, "opener")
+		VerifAssert(consistentSnapshot(s, nInit, 7), "open-succeeded-with-a-state-never-committed")
+	})
+	VerifRunAt(6, "open table")
 	VerifCover("done")
 }
 
